@@ -30,6 +30,7 @@ class Tree:
     def __init__(self):
         self.files = {}      # path -> bytes
         self.links = {}      # path -> target (relative to the link's directory)
+        self.broken = {}     # path -> target: dangling links; they name no regular file and contribute nothing to any form
         self.dirs = set()
 
     def listdir(self, d):
@@ -159,13 +160,24 @@ def gen_tree(rng):
         if lp in t.files or lp in t.dirs or lp in t.links:
             continue
         t.links[lp] = posixpath.relpath(tgt, d)
+    # links that cannot be followed: the walk must pass over them and go on
+    for _ in range(rng.choice((0, 0, 1, 1, 2))):
+        d = rng.choice([x for x in all_dirs if not x.startswith("outside")])
+        name = rng.choice(("broken", "a_gone.log", "zz_loop", "m_self", "0dangling.log"))
+        lp = d + "/" + name
+        if lp in t.files or lp in t.dirs or lp in t.links or lp in t.broken:
+            continue
+        # (dangling only: a link to an ancestor is followed by the walk until the kernel's 40-level limit and lists the
+        # same files again and again -- what "every regular file beneath it" means for a loop is not something the
+        # statement defines, so trees stay cycle-free)
+        t.broken[lp] = rng.choice(("no/such/target.log", "gone.log", "../gone", "/nonexistent/s4sim/x.log"))
     return t, roots
 
 
 def to_scenario(rng, t, argv, stdin):
     specs = [core.FileSpec(p, d, 1600000000) for p, d in t.files.items()]
     rng.shuffle(specs)      # creation order on disk is part of the scenario
-    for lp, tgt in t.links.items():
+    for lp, tgt in list(t.links.items()) + list(t.broken.items()):
         specs.append(core.FileSpec(lp, b"", None, tgt))
     return core.Scenario(specs, argv, stdin, "UTC", sorted(t.dirs))
 
@@ -247,7 +259,9 @@ def run_case(seed, i, tier):
         cr.probes["tree_has_dot_names"] += 1
     if nonlog_explicit:
         cr.probes["tree_has_nonlog_suffix_files"] += 1
-    cr.sample = {"args": args, "explicit_expansion": explicit, "symlinks": t.links, "files": len(t.files)}
+    cr.sample = {"args": args, "explicit_expansion": explicit, "symlinks": t.links, "unfollowable_links": t.broken, "files": len(t.files)}
+    if t.broken:
+        cr.probes["tree_with_unfollowable_links"] += 1
     return cr
 
 
